@@ -336,7 +336,9 @@ FLOAT_SHAPES = [
 ]
 FLOAT_PAIRS = [("0.0", "10.0"), ("-5.5", "1e3"), ("-0.0", "0.0"), ("0.1", "0.3"), ("-100", "100"),
                ("1.0", "1.0"), ("-3.0e38", "3.0e38"), ("64.0", "65.0"), ("1e-40", "1e-39"),
-               ("-1e3", "-2.5E-3"), ("5", "7.25"), ("1_000.5", "2_000.5")]
+               ("-1e3", "-2.5E-3"), ("5", "7.25"), ("1_000.5", "2_000.5"),
+               # a hair above an f32 midpoint: reading the literal through f64 and narrowing rounds twice
+               ("1.0000000596046448", "16777217.000000001")]
 FLOAT_STYLES = ["lit", "const", "negconst", "parenconst", "lit", "parenlit", "userassoc", "usermod"]
 FLOAT_DERIVES = ["Debug", "Clone", "Copy", "PartialEq", "PartialOrd", "FromStr", "AsRef", "Into",
                  "TryFrom", "Borrow", "Display", "Deref"]
@@ -461,9 +463,9 @@ STR_VAL_SETS = [
     [], ["not_empty"], ["min"], ["max"], ["min", "max"], ["max", "min"], ["not_empty", "max"],
     ["min", "not_empty"], ["P0"], ["P1", "max"], ["R0"], ["not_empty", "min", "R2"], ["R1p", "max"],
     ["max", "not_empty", "P0"], ["C"], ["R0p", "min"], ["not_empty", "min", "max", "P1", "R1"], ["R3"], ["R3p", "max"], ["min", "R3"],
-    ["R2", "P0", "max", "min", "not_empty"],
+    ["R2", "P0", "max", "min", "not_empty"], ["R4"], ["R4p", "max"],
 ]
-REGEX_LITS = ["^[a-z]+$", "@", "^.{2,4}$", "b{2}"]
+REGEX_LITS = ["^[a-z]+$", "@", "^.{2,4}$", "b{2}", "(?i)^k[0-9]+$"]
 STR_DERIVES = ["Debug", "Clone", "PartialEq", "Eq", "PartialOrd", "Ord", "Hash", "FromStr", "AsRef",
                "Into", "TryFrom", "Borrow", "Display", "Deref"]
 USIZE_STYLES = ["lit", "const", "paren", "arith", "call", "parenconst", "shift", "userassoc", "usermod", "hex", "bin", "oct"]
@@ -553,6 +555,8 @@ def str_inputs(d, rng, alphabet, maxlen=3, sample=None, extra=()):
     # NUL / quote / backslash, and strings around the lengths 64 and 255
     out += ["\U00010400", "\U00010428a", "\U0001F600", "a\U0001F600\U0001F600", "a\u0301", "\u0301", "e\u0301\u0323", "\0", "a\0b", "\"", "\\", "a\"b\\c",
             "bb", "b{2}", "abbc", "b", "bab", "Bb", "x{3}",
+            # a case-insensitive, Unicode-aware regex: KELVIN SIGN folds to k; Arabic-Indic digits are not [0-9]
+            "k1", "K22", "\u212a7", "\u212a", "k", "k\u0663", "kx", "1k", "K 1", "k1\n",
             "a" * 63, "a" * 64, "a" * 65, "\u0436" * 64, "B" * 255, "x" * 256, " " + "b" * 300 + " ", "\u00df" * 65, "\U0001F600" * 70]
     return out
 
@@ -915,6 +919,28 @@ def gen_arb_ints(rng, tier, start=0):
         extra(ty, [[tid(kind), EQ, tx(e if kk % 2 == 0 else par(e))]], [], [v, v])
     for ty in ("i32", "u8"):
         extra(ty, [[tid("with"), EQ, tfn(0, "p", "c")], [tid("error"), EQ, tpath("CErr")]], [], [0, 0], custom=True)
+    # an idempotent sanitizer (clamp to 0..=100) beside bounds that are wider than its image: the raw
+    # draw and the stored value differ, the stored value must be the sanitized one
+    for ty, lo_v, hi_v in (("i32", -50, 120), ("u8", 0, 200), ("i64", 0, 100), ("u16", 20, 1000)):
+        blocks = [block("sanitize", [[tid("with"), EQ, tfn(0, "p", "s")]]),
+                  block("validate", [[tid("greater_or_equal"), EQ, tx(lit_int(lo_v))], [tid("less_or_equal"), EQ, tx(lit_int(hi_v))]]),
+                  derive_block(["Debug", "Arbitrary"])]
+        d = Decl("ai%d" % (start + len(decls)), ty, attr(blocks), env=[], tags={"arb", "int"})
+        d.bounds = [lo_v, hi_v]
+        d.sanitized = True
+        d.has_san = True
+        d.default_arg = None
+        decls.append(d)
+    # a declared default next to Arbitrary: the default must not influence what can be generated
+    for ty, lo_v, hi_v, dv in (("u8", 1, 6, 4), ("i16", -2, 2, 0), ("u32", 0, 9, 9), ("i8", -128, 127, 5), ("u64", 10, 300, 10)):
+        blocks = [block("validate", [[tid("greater_or_equal"), EQ, tx(lit_int(lo_v))], [tid("less_or_equal"), EQ, tx(lit_int(hi_v))]]),
+                  [tid("default"), EQ, tx(lit_int(dv))], derive_block(["Debug", "Arbitrary", "Default"])]
+        d = Decl("ai%d" % (start + len(decls)), ty, attr(blocks), env=[], tags={"arb", "int"})
+        d.bounds = [lo_v, hi_v]
+        d.sanitized = False
+        d.has_san = False
+        d.default_arg = ("i", dv)
+        decls.append(d)
     return decls
 
 
@@ -1088,7 +1114,7 @@ def gen_msg_decls(rng, tier):
         for kind in LOWER + UPPER:
             for bi, b in enumerate(bvals):
                 env = []
-                e = spell_int(ty, b, ["lit", "const", "paren"][(bi + n) % 3], env, "b")
+                e = spell_int(ty, b, ["lit", "const", "paren", "usermod", "userassoc"][(bi + n) % 5], env, "b")
                 d = Decl("mi%d" % n, ty, attr([block("validate", [[tid(kind), EQ, tx(e)]]),
                                                derive_block(["Debug", "FromStr"])]), env=env,
                          name=["T", "Amount", "Px", "ExitCodeError", "Error"][n % 5], tags={"msg", "int"})
@@ -1103,7 +1129,7 @@ def gen_msg_decls(rng, tier):
         for kind in LOWER + UPPER:
             for bi, bt in enumerate(["-5.5", "0.0", "64.0", "1e30", "-0.0", "0.1", "1.4142135623730951", "0.30000000000000004", "3.1415927", "16777216.0", "-2.7182817"]):
                 env = []
-                e = spell_float(ty, bt, ["lit", "const"][(bi + n) % 2], env, "b")
+                e = spell_float(ty, bt, ["lit", "const", "usermod", "lit", "const", "userassoc"][(bi + n) % 6], env, "b")
                 d = Decl("mf%d" % n, ty, attr([block("validate", [[tid(kind), EQ, tx(e)]]),
                                                derive_block(["Debug", "FromStr"])]), env=env,
                          name=["T", "Dist", "RoundingError"][n % 3], tags={"msg", "float"})
